@@ -1143,8 +1143,10 @@ class Pipeline:
                     f" in the MapSpec: `{f.output_name}` != `{f.mapspec.output_names}`."
                 )
                 raise ValueError(msg)
-        validate_consistent_axes(self.mapspecs(ordered=False))
+        # First (re)generate the MapSpecs of functions that have none of their own: a spec that was
+        # generated before a later consumer was added may still have an axis that is named by now
         self._autogen_mapspec_axes()
+        validate_consistent_axes(self.mapspecs(ordered=False))
 
     @functools.cached_property
     def unique_leaf_node(self) -> PipeFunc:
